@@ -38,7 +38,7 @@ class P(Prop):
             elif r < 0.6:
                 spec = "".join(rnd.choice("is") for _ in range(t))
             else:
-                spec = "".join(rnd.choice("iisr" + ("p" if self.PANICS else "")) for _ in range(t))
+                spec = "".join(rnd.choice("iisr" + ("pzwfeg" if self.PANICS else "")) for _ in range(t))      # C06: jobs that panic, and requests handled over a failing transport
                 # rendezvous tasks come in groups of N so that every group can complete
                 nr = spec.count("r")
                 extra = (-nr) % N
